@@ -10,17 +10,34 @@
                            ids whose Python function ran during the call, `recv` what that function
                            received (decoded by the signature libffi used), `ret` what the caller
                            got back and `exp` what c's own function returns for `sent`.
+   Histories are not flat: a callback's Python function may itself create, drop and call callbacks
+   (also drop the very callback that is running; its closure may then be reused by a new callback
+   while the old invocation is still in flight).  An invocation that is observed in two steps is
+            begin(c, ran, sent, recv)      the invocation of c has entered Python: `ran` = the ids of the
+                           functions entered, `recv` what they received
+            ...            any events (create / drop / call / begin..end) that happen inside it
+            end(c, how, herr, ret, exp)    it came back: how = "return" (ret must be what the function
+                           returned, exp) or "raise" (the function raised: the caller must get c's OWN
+                           declared error value and exactly c's OWN onerror handler runs, if it has
+                           one: `herr` = ids of the callbacks whose onerror handler ran) - whatever
+                           happened to c meanwhile: the binding of an invocation is the one the
+                           callback had when it was called.
+            create carries the declared error result `errv` and whether an onerror handler was given.
    Guards are the clauses of the property, effects are separate (total verdicts in trace
    validation). *)
 EXTENDS Naturals, Sequences, FiniteSets
 CONSTANTS Cbs      \* callback ids
 VARIABLES live,    \* live[c] = address of the live callback c (a function with a growing domain)
+          own,     \* own[c] = [errv, oe]: the error result / onerror handler c was created with
+          stack,   \* invocations in flight, innermost last: [c, errv, oe] (binding taken when called)
           last     \* the last event
-ivars == <<live, last>>
+ivars == <<live, own, stack, last>>
 
 Empty == [x \in {} |-> 0]
-IInit == /\ live = Empty
-         /\ last = [ev |-> "init", c |-> 0, a |-> 0, ran |-> <<>>, sent |-> <<>>, recv |-> <<>>, ret |-> 0, exp |-> 0]
+NoEvent == [ev |-> "init", c |-> 0, a |-> 0, ran |-> <<>>, sent |-> <<>>, recv |-> <<>>, ret |-> 0, exp |-> 0,
+            errv |-> 0, oe |-> FALSE, how |-> "", herr |-> <<>>]
+IInit == /\ live = Empty /\ own = Empty /\ stack = <<>>
+         /\ last = NoEvent
 
 Live == DOMAIN live
 \* ---- guards
@@ -31,23 +48,47 @@ CallG(c, ran, sent, recv, ret, exp) ==
     /\ ran = <<c>>          \* exactly its own Python function, exactly once
     /\ recv = sent          \* decoded with its own signature
     /\ ret = exp            \* and its result comes back
+\* an invocation enters Python: the same clauses as the first two of CallG (a live callback; dropping
+\* it afterwards, while it runs, is part of the histories the property ranges over)
+BeginG(c, ran, sent, recv) == c \in Live /\ ran = <<c>> /\ recv = sent
+Top == stack[Len(stack)]
+EndDomain(c) == stack # <<>> /\ Top.c = c               \* (harness: invocations nest)
+EndG(c, how, herr, ret, exp) ==
+    /\ EndDomain(c)
+    /\ how \in {"return", "raise"}
+    /\ how = "return" => herr = <<>> /\ ret = exp          \* its result comes back
+    /\ how = "raise"  => /\ ret = Top.errv                 \* its OWN error result
+                         /\ herr = IF Top.oe THEN <<c>> ELSE <<>>     \* its OWN onerror handler, nobody else's
 \* ---- effects
-CreateE(c, a) == live' = [d \in Live \cup {c} |-> IF d = c THEN a ELSE live[d]]
-DropE(c) == live' = [d \in Live \ {c} |-> live[d]]
-CallE(c) == UNCHANGED live
+CreateE2(c, a, errv, oe) == /\ live' = [d \in Live \cup {c} |-> IF d = c THEN a ELSE live[d]]
+                            /\ own' = [d \in Live \cup {c} |-> IF d = c THEN [errv |-> errv, oe |-> oe] ELSE own[d]]
+                            /\ UNCHANGED stack
+CreateE(c, a) == CreateE2(c, a, 0, FALSE)
+DropE(c) == /\ live' = [d \in Live \ {c} |-> live[d]]
+            /\ own' = [d \in Live \ {c} |-> own[d]]
+            /\ UNCHANGED stack
+CallE(c) == UNCHANGED <<live, own, stack>>
+BeginE(c) == stack' = Append(stack, [c |-> c, errv |-> own[c].errv, oe |-> own[c].oe]) /\ UNCHANGED <<live, own>>
+EndE(c) == stack' = SubSeq(stack, 1, Len(stack) - 1) /\ UNCHANGED <<live, own>>
 
 Ev(e, c, a, ran, sent, recv, ret, exp) ==
-    last' = [ev |-> e, c |-> c, a |-> a, ran |-> ran, sent |-> sent, recv |-> recv, ret |-> ret, exp |-> exp]
+    last' = [NoEvent EXCEPT !.ev = e, !.c = c, !.a = a, !.ran = ran, !.sent = sent, !.recv = recv, !.ret = ret, !.exp = exp]
 
 \* The next-state relation is written over the event published in last' (logically the same as
 \* quantifying existentially over the address and the argument lists, which are unbounded).
 INext == \E c \in Cbs :
-           \/ CreateG(c, last'.a) /\ CreateE(c, last'.a) /\ Ev("create", c, last'.a, <<>>, <<>>, <<>>, 0, 0)
+           \/ /\ last'.ev = "create" /\ last'.c = c
+              /\ CreateG(c, last'.a) /\ CreateE2(c, last'.a, last'.errv, last'.oe)
            \/ DropG(c) /\ DropE(c) /\ Ev("drop", c, 0, <<>>, <<>>, <<>>, 0, 0)
            \/ /\ CallG(c, <<c>>, last'.sent, last'.sent, last'.ret, last'.ret) /\ CallE(c)
               /\ Ev("call", c, 0, <<c>>, last'.sent, last'.sent, last'.ret, last'.ret)
+           \/ /\ last'.ev = "begin" /\ last'.c = c
+              /\ BeginG(c, last'.ran, last'.sent, last'.recv) /\ BeginE(c)
+           \/ /\ last'.ev = "end" /\ last'.c = c
+              /\ EndG(c, last'.how, last'.herr, last'.ret, last'.exp) /\ EndE(c)
 ISpec == IInit /\ [][INext]_ivars
 
 \* sanity of the formulation
 DistinctLive == \A c, d \in Live : c # d => live[c] # live[d]
+OwnLive == DOMAIN own = Live
 =============================================================================
